@@ -29,35 +29,35 @@ def specWindow (li : Idx) (H W kh kw sh sw i j : Nat) : List Idx :=
   (rangeFrom (sh * i) (min (sh * i + kh) H)).flatMap fun a =>
     (rangeFrom (sw * j) (min (sw * j + kw) W)).map fun b => li ++ [a, b]
 
-/-- zero-padded read of a `(1, C, L)` input at padded position `j` -/
-def padRead (x : Arr Int) (L p ch j : Nat) : Int :=
-  if p ≤ j ∧ j < L + p then x.get [0, ch, j - p] else 0
+/-- zero-padded read of a `(N, C, L)` input at batch `n`, channel `ch`, padded position `j` -/
+def padRead (x : Arr Int) (L p n ch j : Nat) : Int :=
+  if p ≤ j ∧ j < L + p then x.get [n, ch, j - p] else 0
 
-/-- zero-padded read of a `(1, C, H, W)` input at padded position `(i, j)` -/
-def padRead2 (x : Arr Int) (H W p ch i j : Nat) : Int :=
-  if (p ≤ i ∧ i < H + p) ∧ (p ≤ j ∧ j < W + p) then x.get [0, ch, i - p, j - p] else 0
+/-- zero-padded read of a `(N, C, H, W)` input at padded position `(i, j)`, padding `(pH, pW)` -/
+def padRead2 (x : Arr Int) (H W pH pW n ch i j : Nat) : Int :=
+  if (pH ≤ i ∧ i < H + pH) ∧ (pW ≤ j ∧ j < W + pW) then x.get [n, ch, i - pH, j - pW] else 0
 
 /-- `stride=None` means 1, `padding=None` means 0, `dilation=None` means 1 -/
 def strideOf : Option Nat → Nat | none => 1 | some s => s
 def paddingOf : Option Nat → Nat | none => 0 | some p => p
 def dilationOf : Option Nat → Nat | none => 1 | some d => d
 
-/-- nested-loop conv1d, one output element; `grp o` is the group of output channel `o`:
-    `out[0,o,l] = bias[o] + Σ_{c < C/g} Σ_{k < K} xpad[0, grp(o)·(C/g) + c, l·s + k·d] · w[o,c,k]` -/
-def conv1dLoop (grp : Nat → Nat) (x w : Arr Int) (bias : Option (Arr Int)) (L Cg K s p d : Nat) (o l : Nat) : Int :=
-  sumTo Cg (fun c => sumTo K (fun k => padRead x L p (grp o * Cg + c) (l * s + k * d) * w.get [o, c, k]))
-    + (match bias with | none => 0 | some b => b.get [o])
-
-/-- nested-loop conv2d (same stride / padding / dilation on both planes), one output element:
-    `out[0,o,i,j] = bias[o] + Σ_c Σ_kh Σ_kw xpad[0, grp(o)·(C/g) + c, i·s + kh·d, j·s + kw·d] · w[o,c,kh,kw]` -/
-def conv2dLoop (grp : Nat → Nat) (x w : Arr Int) (bias : Option (Arr Int)) (H W Cg KH KW s p d : Nat) (o i j : Nat) : Int :=
-  sumTo Cg (fun c => sumTo KH (fun kh => sumTo KW (fun kw =>
-      padRead2 x H W p (grp o * Cg + c) (i * s + kh * d) (j * s + kw * d) * w.get [o, c, kh, kw])))
-    + (match bias with | none => 0 | some b => b.get [o])
-
-/-- PyTorch: output channel `o` belongs to group `o / (O/groups)` -/
+/-- PyTorch: output channel `o` of `O` belongs to group `o / (O/groups)` and reads that group's `C/groups` input channels -/
 def grpSpec (O g : Nat) (o : Nat) : Nat := o / (O / g)
 /-- the code (layout `(O/g, g)` of `conv_reshape_weight`): group `o % groups` -/
 def grpCode (g : Nat) (o : Nat) : Nat := o % g
+
+/-- nested-loop conv1d, one output element (`Cg = C/groups` input channels per group, `grp o` the group of output
+    channel `o`): `out[n,o,l] = bias[o] + Σ_{c < Cg} Σ_{k < K} xpad[n, grp(o)·Cg + c, l·s + k·d] · w[o,c,k]` -/
+def conv1dLoop (grp : Nat → Nat) (x w : Arr Int) (bias : Option (Arr Int)) (L Cg K s p d : Nat) (n o l : Nat) : Int :=
+  sumTo Cg (fun c => sumTo K (fun k => padRead x L p n (grp o * Cg + c) (l * s + k * d) * w.get [o, c, k]))
+    + (match bias with | none => 0 | some b => b.get [o])
+
+/-- nested-loop conv2d, one output element, per-plane stride `(sH,sW)`, padding `(pH,pW)`, dilation `(dH,dW)`:
+    `out[n,o,i,j] = bias[o] + Σ_c Σ_kh Σ_kw xpad[n, grp(o)·Cg + c, i·sH + kh·dH, j·sW + kw·dW] · w[o,c,kh,kw]` -/
+def conv2dLoop (grp : Nat → Nat) (x w : Arr Int) (bias : Option (Arr Int)) (H W Cg KH KW sH sW pH pW dH dW : Nat) (n o i j : Nat) : Int :=
+  sumTo Cg (fun c => sumTo KH (fun kh => sumTo KW (fun kw =>
+      padRead2 x H W pH pW n (grp o * Cg + c) (i * sH + kh * dH) (j * sW + kw * dW) * w.get [o, c, kh, kw])))
+    + (match bias with | none => 0 | some b => b.get [o])
 
 end NmVerif.NN
